@@ -48,9 +48,9 @@ TIME_CAP = {"quick": 900, "thorough": 3000}
 # (alphabet, n_lo, n_hi, max top-level items, {n: repl mode})
 # repl mode 1 = every layout, 2 = single-item programs in the plain layout only
 BOUNDS = {
-    "quick": dict(spaces=[("full", 1, 2, 3, {1: 1, 2: 1}), ("full", 3, 3, 1, {3: 2}), ("core", 3, 3, 3, {}), ("core", 4, 4, 2, {})],
+    "quick": dict(spaces=[("full", 1, 2, 3, {1: 1, 2: 1}), ("full", 3, 3, 1, {}), ("core", 3, 3, 3, {3: 1}), ("core", 4, 4, 2, {})],
                   layouts=["plain", "tight"], target=800),
-    "thorough": dict(spaces=[("full", 1, 3, 3, {1: 1, 2: 1, 3: 1}), ("full", 4, 4, 1, {}), ("core", 4, 4, 3, {4: 2}), ("core", 5, 5, 2, {})],
+    "thorough": dict(spaces=[("full", 1, 3, 3, {1: 1, 2: 1, 3: 2}), ("full", 4, 4, 1, {}), ("core", 4, 4, 3, {4: 2}), ("core", 5, 5, 2, {})],
                      layouts=["plain", "tight"], target=4000),
 }
 REPL_MODES = {0: "none", 1: "all programs, all layouts", 2: "single-item programs, plain layout"}
